@@ -45,6 +45,12 @@ CONSTANTS
     CompactRevs,          \* revisions a compaction request may name
     MaxCompacts,          \* compaction requests per compactor
     DelFaults,            \* SUBSET {"err","cas","die"}: faults of compaction deletes
+    EagerSeq,             \* generator bias: every event is flushed and broadcast before the next write starts
+    FixedOps,             \* << >>, or the operation sequence every writer issues (generator configs)
+    LazyWatchers,         \* watchers whose forwarding loop only runs when nothing else can (generator bias
+                          \*       towards buffer overflow; {} in every model-checking config)
+    AtomicWrites,         \* TRUE: nothing interleaves with a write request once it has started
+                          \*       (watch / read families: the write path is explored by its own configs)
     GenHist               \* TRUE: carry the schedule in hist (generator configs)
 
 NoEv == [rev |-> 0]
@@ -106,7 +112,7 @@ WLocInit == [rev |-> 0, mod |-> 0, oldval |-> "-", old |-> NoIdx, res |-> "none"
              diff |-> FALSE, engDone |-> TRUE, kvrev |-> 0, kvval |-> "-", hdr |-> 0]
 
 WatchReqSet == [start : WatchStarts, prefix : WatchPrefixes]
-XLocInit == [last |-> 0, res |-> "none", find |-> "none", evs |-> << >>, newest |-> 0]
+XLocInit == [last |-> 0, res |-> "none", find |-> "none", evs |-> << >>, newest |-> 0, listed |-> FALSE, lrev |-> 0, lsnap |-> << >>]
 SubInit  == [reg |-> FALSE, closed |-> FALSE, buf |-> << >>, hand |-> << >>, hasHand |-> FALSE]
 
 Init ==
@@ -118,7 +124,8 @@ Init ==
     /\ floor = 0
     /\ dealt = Base /\ committed = Base
     /\ slot = [r \in (Base+1)..MaxRev |-> NoEv]
-    /\ wops \in [Writers -> [1..OpsPer -> OpSet]]
+    /\ IF FixedOps = << >> THEN wops \in [Writers -> [1..OpsPer -> OpSet]]
+                         ELSE wops = [w \in Writers |-> FixedOps]
     /\ wpc = [w \in Writers |-> "idle"]
     /\ wloc = [w \in Writers |-> WLocInit]
     /\ wi = [w \in Writers |-> 1]
@@ -189,6 +196,10 @@ ResOf(a) == CASE a = "ok" -> "ok" [] a = "err" -> "err" [] OTHER -> "unk"
 -----------------------------------------------------------------------------
 \* WRITERS
 
+\* generator bias: lazy watchers subscribe before the first write starts
+SeqIdle0 == seqpc = "poll" /\ batch = << >> /\ (committed + 1 \in DOMAIN slot => slot[committed + 1] = NoEv)
+CanStart == /\ \A x \in LazyWatchers : xpc[x] # "start"
+            /\ (EagerSeq => (SeqIdle0 /\ chan = << >>))
 IsCreateLike(o) == o.type = "create" \/ (o.type = "update" /\ o.exp = 0)
 
 \* start of an operation: remember what had already returned (real-time order) and whether
@@ -199,7 +210,7 @@ Begin(w, loc) ==
 
 \* create / update with expectation 0: allocate                          gate: deal
 CreateDeal(w) ==
-    /\ wpc[w] = "idle" /\ wi[w] <= OpsPer /\ IsCreateLike(Op(w))
+    /\ wpc[w] = "idle" /\ wi[w] <= OpsPer /\ IsCreateLike(Op(w)) /\ CanStart
     /\ dealt' = dealt + 1
     /\ wloc' = [wloc EXCEPT ![w] = [Begin(w, WLocInit) EXCEPT !.rev = dealt + 1, !.engDone = FALSE]]
     /\ wpc' = [wpc EXCEPT ![w] = "c_pine"]
@@ -279,7 +290,7 @@ CreateCas(w) ==
 
 \* update with expectation > 0: allocate; refuse expectations from the future   gate: deal
 UpdateDeal(w) ==
-    /\ wpc[w] = "idle" /\ wi[w] <= OpsPer /\ Op(w).type = "update" /\ Op(w).exp > 0
+    /\ wpc[w] = "idle" /\ wi[w] <= OpsPer /\ Op(w).type = "update" /\ Op(w).exp > 0 /\ CanStart
     /\ dealt' = dealt + 1
     /\ LET l0 == [Begin(w, WLocInit) EXCEPT !.rev = dealt + 1] IN
        IF dealt + 1 < Op(w).exp
@@ -302,7 +313,7 @@ UpdateCas(w) ==
 
 \* delete: read the newest version                                          gate: kv.iter
 DeleteGet(w) ==
-    /\ wpc[w] = "idle" /\ wi[w] <= OpsPer /\ Op(w).type = "delete"
+    /\ wpc[w] = "idle" /\ wi[w] <= OpsPer /\ Op(w).type = "delete" /\ CanStart
     /\ LET k == Op(w).key  l == LatestK(k)  l0 == Begin(w, WLocInit) IN
        wloc' = [wloc EXCEPT ![w] =
                   IF IsLive(l) THEN [l0 EXCEPT !.mod = l.rev, !.oldval = l.val]
@@ -513,6 +524,9 @@ HubDeliver ==
 -----------------------------------------------------------------------------
 \* WATCHERS  (backend.Watch / processEvents)
 
+WritersDone == \A w \in Writers : wpc[w] = "idle" /\ wi[w] > OpsPer
+SeqIdle == seqpc = "poll" /\ batch = << >> /\ (committed + 1 \in DOMAIN slot => slot[committed + 1] = NoEv)
+
 InPrefix(p, k) == k \in PrefixOf[p]
 FilterPrefix(evs, p) == SelectSeq(evs, LAMBDA e : InPrefix(p, e.key))
 \* batches are revision ordered: dropping the leading events below r
@@ -520,19 +534,31 @@ FilterRev(evs, r) == SelectSeq(evs, LAMBDA e : e.rev >= r)
 
 WUnch == <<store, floor, dealt, committed, slot, wvars, seqvars, chan, cache, rvars, faults, xreq, acked, maxRet, emitted, kinit, rdvars, cvars>>
 
+ListMark == 999   \* start value that stands for "list first, then watch from the list revision + 1"
+\* a watcher whose request names start = ListMark first lists its prefix (atomically: the range read
+\* samples the committed revision R and returns the snapshot at R) and then watches from R + 1
+StartOf(w) == IF xreq[w].start = ListMark THEN xloc[w].lrev + 1 ELSE xreq[w].start
+ListFirst(w) ==
+    /\ xpc[w] = "start" /\ xreq[w].start = ListMark /\ ~xloc[w].listed
+    /\ xloc' = [xloc EXCEPT ![w].listed = TRUE, ![w].lrev = committed,
+                             ![w].lsnap = [k \in Keys |-> IF k \in PrefixOf[xreq[w].prefix] /\ IsLive(NewestLE(ver[k], committed))
+                                                          THEN NewestLE(ver[k], committed) ELSE NoVer]]
+    /\ H(w, "ListFirst", "start")
+    /\ UNCHANGED <<WUnch, subs, xpc, outClosed, delivered>>
+
 \* register with the hub                    (first segment of Watch(); ends at watch.subscribed)
 Subscribe(w) ==
-    /\ xpc[w] = "start"
+    /\ xpc[w] = "start" /\ (xreq[w].start = ListMark => xloc[w].listed)
     /\ subs' = [subs EXCEPT ![w].reg = TRUE]
-    /\ xpc' = [xpc EXCEPT ![w] = IF xreq[w].start = 0 THEN "decide" ELSE "cacheread"]
-    /\ xloc' = [xloc EXCEPT ![w].last = xreq[w].start, ![w].find = IF xreq[w].start = 0 THEN "zero" ELSE "none"]
+    /\ xpc' = [xpc EXCEPT ![w] = IF StartOf(w) = 0 THEN "decide" ELSE "cacheread"]
+    /\ xloc' = [xloc EXCEPT ![w].last = StartOf(w), ![w].find = IF StartOf(w) = 0 THEN "zero" ELSE "none"]
     /\ H(w, "Subscribe", "start")
     /\ UNCHANGED <<WUnch, outClosed, delivered>>
 
 \* look the start revision up in the event cache (Ring.FindEvents)        gate: watch.subscribed
 CacheRead(w) ==
     /\ xpc[w] = "cacheread"
-    /\ LET S == xreq[w].start IN
+    /\ LET S == StartOf(w) IN
        xloc' = [xloc EXCEPT ![w] =
                   IF cache = << >> THEN [@ EXCEPT !.find = "empty"]
                   ELSE IF S > cache[Len(cache)].rev THEN [@ EXCEPT !.find = "high"]
@@ -546,7 +572,7 @@ CacheRead(w) ==
 \*                                          gate: watch.cacheread (watch.subscribed when start = 0)
 Decide(w) ==
     /\ xpc[w] = "decide"
-    /\ LET f == xloc[w].find  S == xreq[w].start
+    /\ LET f == xloc[w].find  S == StartOf(w)
            refuse == (f = "empty" /\ S <= committed) \/ f = "low"
            evs == IF f = "slice" THEN FilterPrefix(xloc[w].evs, xreq[w].prefix) ELSE << >> IN
        IF refuse
@@ -559,19 +585,20 @@ Decide(w) ==
                                      ![w].last = IF evs # << >> THEN xloc[w].newest + 1 ELSE S]
             /\ delivered' = [delivered EXCEPT ![w] = @ \o evs]
             \* the forwarding loop immediately takes the oldest buffered batch, if any
-            /\ subs' = [subs EXCEPT ![w] = IF @.buf # << >>
-                                           THEN [@ EXCEPT !.hand = Head(@.buf), !.hasHand = TRUE, !.buf = Tail(@.buf)]
-                                           ELSE @]
-    /\ H(w, "Decide", IF xreq[w].start = 0 THEN "watch.subscribed" ELSE "watch.cacheread")
+            /\ subs' = [subs EXCEPT ![w] = IF subs[w].buf # << >>
+                                           THEN [subs[w] EXCEPT !.hand = Head(subs[w].buf), !.hasHand = TRUE, !.buf = Tail(subs[w].buf)]
+                                           ELSE subs[w]]
+    /\ H(w, "Decide", IF StartOf(w) = 0 THEN "watch.subscribed" ELSE "watch.cacheread")
     /\ UNCHANGED <<WUnch, outClosed>>
 
 \* the forwarding loop handles the batch it holds and takes the next one      gate: watch.process
 Process(w) ==
     /\ xpc[w] = "running" /\ subs[w].hasHand
+    /\ (w \in LazyWatchers => (subs[w].closed \/ (WritersDone /\ SeqIdle /\ chan = << >>)))
     /\ delivered' = [delivered EXCEPT ![w] = @ \o FilterPrefix(FilterRev(subs[w].hand, xloc[w].last), xreq[w].prefix)]
-    /\ subs' = [subs EXCEPT ![w] = IF @.buf # << >>
-                                   THEN [@ EXCEPT !.hand = Head(@.buf), !.buf = Tail(@.buf)]
-                                   ELSE [@ EXCEPT !.hand = << >>, !.hasHand = FALSE]]
+    /\ subs' = [subs EXCEPT ![w] = IF subs[w].buf # << >>
+                                   THEN [subs[w] EXCEPT !.hand = Head(subs[w].buf), !.buf = Tail(subs[w].buf)]
+                                   ELSE [subs[w] EXCEPT !.hand = << >>, !.hasHand = FALSE]]
     /\ H(w, "Process", "watch.process")
     /\ UNCHANGED <<WUnch, xpc, xloc, outClosed>>
 
@@ -583,15 +610,18 @@ CloseOut(w) ==
     /\ H(w, "CloseOut", "watch.closing")
     /\ UNCHANGED <<WUnch, subs, xloc, delivered>>
 
-WatcherNext(w) == Subscribe(w) \/ CacheRead(w) \/ Decide(w) \/ Process(w) \/ CloseOut(w)
+WatcherNext(w) == ListFirst(w) \/ Subscribe(w) \/ CacheRead(w) \/ Decide(w) \/ Process(w) \/ CloseOut(w)
 
 -----------------------------------------------------------------------------
+WriterBusy == \E w \in Writers : wpc[w] # "idle"
 Next ==
-    \/ \E w \in Writers : WriterNext(w)
-    \/ SeqNext
-    \/ RetryNext
-    \/ (Watchers # {} /\ HubDeliver)
-    \/ \E w \in Watchers : WatcherNext(w)
+    IF AtomicWrites /\ WriterBusy
+    THEN \E w \in Writers : wpc[w] # "idle" /\ WriterNext(w)
+    ELSE \/ \E w \in Writers : WriterNext(w)
+         \/ SeqNext
+         \/ RetryNext
+         \/ (Watchers # {} /\ HubDeliver)
+         \/ \E w \in Watchers : WatcherNext(w)
 
 Fairness == /\ WF_vars(SeqNext) /\ WF_vars(RetryNext)
             /\ \A w \in Writers : WF_vars(WriterNext(w))
@@ -600,8 +630,6 @@ Spec == Init /\ [][Next]_vars /\ Fairness
 -----------------------------------------------------------------------------
 \* PROPERTIES
 
-WritersDone == \A w \in Writers : wpc[w] = "idle" /\ wi[w] > OpsPer
-SeqIdle == seqpc = "poll" /\ batch = << >> /\ (committed + 1 \in DOMAIN slot => slot[committed + 1] = NoEv)
 Quiescent == WritersDone /\ SeqIdle /\ retryQ = << >> /\ rpc = "idle"
 AllDone == /\ Quiescent /\ chan = << >>
            /\ \A w \in Watchers : /\ xpc[w] \in {"running", "refused", "closed"}
@@ -674,16 +702,24 @@ EventsMatchWrites ==
 AckedEmitted == Quiescent => \A a \in AckedOk : \E i \in 1..Len(emitted) : emitted[i].rev = a.rev
 
 \* ---- C05
-Expected(w) == FilterPrefix(FilterRev(emitted, xreq[w].start), xreq[w].prefix)
+Expected(w) == FilterPrefix(FilterRev(emitted, StartOf(w)), xreq[w].prefix)
 DeliveredIsPrefix ==
-    \A w \in Watchers : xreq[w].start > 0 => IsPrefix(delivered[w], Expected(w))
+    \A w \in Watchers : StartOf(w) > 0 /\ xpc[w] # "start" => IsPrefix(delivered[w], Expected(w))
 \* a watch from "now" (start 0) delivers a gap-free run of the matching events
 IsInfix(s, t) == \E i \in 0..(Len(t) - Len(s)) : SubSeq(t, i + 1, i + Len(s)) = s
 DeliveredIsInfix ==
     \A w \in Watchers : xreq[w].start = 0 => IsInfix(delivered[w], FilterPrefix(emitted, xreq[w].prefix))
 RefusedDeliversNothing == \A w \in Watchers : xloc[w].res = "refused" => delivered[w] = << >>
 CompleteAtQuiescence ==
-    AllDone => \A w \in Watchers : (xpc[w] = "running" /\ xreq[w].start > 0) => delivered[w] = Expected(w)
+    AllDone => \A w \in Watchers : (xpc[w] = "running" /\ StartOf(w) > 0) => delivered[w] = Expected(w)
+
+\* ---- C06: list at R, watch from R + 1: the list result plus the delivered events is the snapshot
+\* at the revision of the last delivered event
+ListWatchAgree ==
+    \A w \in Watchers : (xreq[w].start = ListMark /\ xloc[w].listed /\ delivered[w] # << >>) =>
+        LET R2 == delivered[w][Len(delivered[w])].rev
+            snap == [k \in Keys |-> IF k \in PrefixOf[xreq[w].prefix] /\ IsLive(NewestLE(hver[k], R2)) THEN NewestLE(hver[k], R2) ELSE NoVer]
+        IN Applies(delivered[w], xloc[w].lsnap) = snap
 
 -----------------------------------------------------------------------------
 \* generator support: one JSON object per complete behaviour
